@@ -154,8 +154,8 @@ pub fn profile(id: &str) -> Option<Profile> {
             o.readback = false;
             (Kind::Engine, 5000, 300_000)
         }
-        "C04" => (Kind::Crash, 600, 20_000),
-        "C05" => (Kind::Crash, 600, 20_000),
+        "C04" => (Kind::Crash, 2000, 40_000),
+        "C05" => (Kind::Crash, 1500, 40_000),
         "C12" => (Kind::Crash, 240, 15_000),
         "C17" => (Kind::Fault, 500, 12_000),
         "C09" => (Kind::Conformance, 3000, 150_000),
